@@ -16,7 +16,7 @@ pub enum OpKind {
     /// Uniform object constructed once, sampled calls.len() times
     Uniform { low: Vec<u8>, high: Vec<u8>, inclusive: bool, ctor: Ctor },
     /// fill a slice of `len` elements
-    Fill { len: usize, init: u8, via: FillVia },
+    Fill { len: usize, init: u8, front: usize, via: FillVia },
     /// R6: try_fill_slice(len) versus len x gen() on two copies of one byte stream
     FillVsElem { len: usize, stream: Vec<u8> },
     /// exact fibre counting at any width: serve consecutive words start, start+-1, ... as the only word of
@@ -47,6 +47,8 @@ pub struct RunSpec {
     pub ty: String,
     pub infallible: bool,
     pub fresh_seed: u64,
+    /// the error code every injected RNG error of this run carries (rand::Error::code / raw_os_error)
+    pub err_code: u32,
     pub ops: Vec<Op>,
     /// generator's label: 0 mixed, 1 cluster, 2 fault-free twin, 3 fibre walk, 4 span probe
     pub mode: u8,
@@ -60,6 +62,7 @@ fn plan_j(p: &Plan) -> J {
         Plan::Panic => J::s("panic"),
         Plan::Fixed(b) => J::obj().set("bytes", J::Str(hex(b))),
         Plan::PartialErr(f) => J::obj().set("partial_err", J::i(*f as i64)),
+        Plan::FaultAtByte(n, inner) => J::obj().set("fault_when_delivered_bytes_reach", J::Int(*n as i128)).set("fault", plan_j(inner)),
     }
 }
 
@@ -75,6 +78,8 @@ fn plan_from(j: &J) -> Result<Plan, String> {
         J::Obj(_) => {
             if let Some(b) = j.get("bytes") {
                 Ok(Plan::Fixed(unhex(b.str().ok_or("bytes")?)?))
+            } else if let Some(n) = j.get("fault_when_delivered_bytes_reach") {
+                Ok(Plan::FaultAtByte(n.int().ok_or("fault_when_delivered_bytes_reach")? as u64, Box::new(plan_from(j.get("fault").ok_or("fault")?)?)))
             } else if let Some(f) = j.get("partial_err") {
                 Ok(Plan::PartialErr(f.int().ok_or("partial_err")? as u8))
             } else {
@@ -137,9 +142,10 @@ impl Op {
                 o.put("inclusive", J::Bool(*inclusive));
                 o.put("ctor", J::s(ctor_name(*ctor)));
             }
-            OpKind::Fill { len, init, via } => {
+            OpKind::Fill { len, init, front, via } => {
                 o.put("len", J::u(*len));
                 o.put("init", J::i(*init as i64));
+                o.put("guard_elements_in_front", J::u(*front));
                 o.put("via", J::s(via_name(*via)));
             }
             OpKind::FillVsElem { len, stream } => {
@@ -185,7 +191,7 @@ impl Op {
             "fill" => {
                 let v = j.get("via").and_then(|x| x.str()).ok_or("via")?;
                 let via = [FillVia::TryFillSlice, FillVia::FillTrait, FillVia::RngTryFill, FillVia::RngFill].into_iter().find(|x| via_name(*x) == v).ok_or("bad via")?;
-                OpKind::Fill { len: j.get("len").and_then(|x| x.int()).ok_or("len")? as usize, init: j.get("init").and_then(|x| x.int()).unwrap_or(0) as u8, via }
+                OpKind::Fill { len: j.get("len").and_then(|x| x.int()).ok_or("len")? as usize, init: j.get("init").and_then(|x| x.int()).unwrap_or(0) as u8, front: j.get("guard_elements_in_front").and_then(|x| x.int()).unwrap_or(0) as usize, via }
             }
             "span_probe" => {
                 let v = j.get("via").and_then(|x| x.str()).ok_or("via")?;
@@ -233,6 +239,7 @@ impl RunSpec {
             .set("type", J::s(&self.ty))
             .set("rng_infallible", J::Bool(self.infallible))
             .set("fresh_seed", J::Int(self.fresh_seed as i128))
+            .set("rng_error_code", J::Int(self.err_code as i128))
             .set("mode", J::i(self.mode as i64))
             .set("ops", J::Arr(self.ops.iter().map(|o| o.to_json()).collect()))
     }
@@ -247,6 +254,7 @@ impl RunSpec {
             ty: j.get("type").and_then(|x| x.str()).ok_or("type")?.to_string(),
             infallible: j.get("rng_infallible").and_then(|x| x.boolean()).unwrap_or(false),
             fresh_seed: j.get("fresh_seed").and_then(|x| x.int()).unwrap_or(0) as u64,
+            err_code: j.get("rng_error_code").and_then(|x| x.int()).unwrap_or(0xC000_0007) as u32,
             mode: j.get("mode").and_then(|x| x.int()).unwrap_or(0) as u8,
             ops,
         })
